@@ -736,7 +736,8 @@ def voigt_averages(
             for n in range(n_grains):
                 average_tensors[i] += _tensors.elastic_tensor_to_voigt(
                     _tensors.rotate(
-                        phase_tensors[phase_assemblage.index(mineral.phase)],
+                        # NOTE: `phase_tensors` is ordered by phase ordinal.
+                        phase_tensors[mineral.phase],
                         mineral.orientations[i][n, ...].transpose(),
                     )
                     * mineral.fractions[i][n]
